@@ -62,7 +62,21 @@ RULE = (
     "orientation-sensitive (first axis >= 2 with injective values), or target is not a plain existing directory, or "
     "the history writes onto an existing file at least once or creates directories from a non-default directory state "
     "/ after an rmtree / for a bare name, or the configuration history contains at least one switch, or (derived) the "
-    "stored buffer really holds non-zero values at masked pixels"
+    "stored buffer really holds non-zero values at masked pixels; "
+    "(i) RE-USED HEADER-DATA UNITS: one unit is obtained in every way a caller obtains one - the library writer's file "
+    "(Array2D, masked Array2D, Kernel2D, Mask2D, Array1D, masked Array1D, Mask1D) opened with astropy.io.fits.open (each "
+    "listed combination of mode / memmap; the data arrive big-endian), the writer's HDU stored as image extension 1 of a "
+    "two-HDU file, hdu_for_output (in memory, native), a PrimaryHDU / ImageHDU the caller builds from an array of each "
+    "listed dtype and byte order (big- and little-endian float64, float32, int32, int16, int64; exactly representable "
+    "injective signed values) - and is then read by EVERY sequence of the stated length over the from_primary_hdu "
+    "readers of its dimension (2D: Array2D, Kernel2D, Mask2D; 1D: Array1D, Mask1D; real-valued content: the value "
+    "readers only, 0/1 content: all readers), with and without the caller looking at hdu.data before the first read, "
+    "x flip. Reference model: a reader is a pure function of the unit, so read k returns the written content (value "
+    "readers: native values as float64; mask readers: the booleans) and pixel scale whatever was read before; after "
+    "every read the caller's hdu.data (values, shape, dtype incl. byte order), its PIXSCALE / NAXIS / BITPIX cards and "
+    "the array the caller built the unit from are unchanged, objects returned by earlier reads keep their values and "
+    "the file on disk keeps its bytes after the caller closes it; non-trivial (i) = at least two reads of content "
+    "that differs from its vertical flip / reversal"
 )
 ASSUMPTIONS = [
     "I/O code is value-oblivious: injective, non-symmetric, signed float64 labellings that include 5e-30 and -6e30 "
@@ -83,6 +97,11 @@ ASSUMPTIONS = [
     "covered by the plain routes); in the overwrite histories the library read-back accepts values up to the DS9 flip "
     "(orientation belongs to the round-trip routes, A and B differ in shape so stale content cannot hide) and, for an "
     "anisotropic content, also the header form PIXSCALE=<y scale> that is already reported as pixel_scale_header:anisotropic",
+    "re-used header-data units use the isotropic scale 0.7 (the header cards are checked to be untouched by every read) and, "
+    "for mask readers, 0/1 content only (what a mask reader makes of other real values is not stated by the property); "
+    "in-memory units of float32 / integer dtype hold values those dtypes represent exactly, unsigned / scaled (BZERO, BSCALE) "
+    "units are astropy's pseudo-unsigned machinery and are not enumerated; a change of the caller's unit is attributed to "
+    "the read after which it is first seen",
 ]
 BOUNDS = {
     "quick": "1D length <= 6 (all masks); 2D all masks of all shapes with <= 6 cells (1xN, Nx1, 2x2, 2x3, 3x2) + 4 fixed "
@@ -95,12 +114,19 @@ BOUNDS = {
     "configuration histories: all binary setting sequences of length 2..3 (12) x {assignment: 2D classes x frames 2x1, 2x3, 3x2; "
     "1D classes x lengths 2, 3; Imaging 2x3 with a 3x1 psf | pushed configuration: frame 2x3 / length 3 per class} x 9 classes; "
     "derived arrays: 1D all mixed masks of length <= 5, 2D all mixed masks of all shapes with <= 4 cells and of 2x3, 3x2 + fixed "
-    "masks on 1x5, 5x1, 1x6, 6x1, 3x3, 4x3, 3x4, 2x5; 5 (1D) / 6 (2D) derivations x {file, hdu} x 2 flips",
+    "masks on 1x5, 5x1, 1x6, 6x1, 3x3, 4x3, 3x4, 2x5; 5 (1D) / 6 (2D) derivations x {file, hdu} x 2 flips; "
+    "re-used units: sources = 7 writers x {file, extension 1 of a two-HDU file} x open {default (memmap), memmap=False} + "
+    "hdu_for_output per writer + PrimaryHDU from 8 dtypes / byte orders + ImageHDU from >f8; all read sequences of length 2 on "
+    "frames 2x1, 2x3, 3x2 / lengths 2, 3 and of length 3 on 2x3 / length 3 (2D real 4+8, 2D mask 9+27, 1D real 1+1, 1D mask "
+    "4+8 sequences) x caller inspects first {F,T} x 2 flips (6068 cases)",
     "thorough": "1D length <= 9 (all masks); 2D all masks of all shapes with <= 9 cells + all masks of 4x3 and 3x4; kernels as "
     "quick + 7x1, 1x7, 5x3; Imaging as quick; targets as quick; overwrite histories: all sequences of depth 1..4 (780) x 8 writers x 2 flips "
     "+ all sequences of depth 1..3 from the other directory states (929); configuration histories: all binary sequences of length "
     "2..4 (28) x both mechanisms x 2D frames 2x1, 2x3, 3x2, 2x2, 3x3, 4x3, 5x1, 1D lengths 2, 3, 5, 4 Imaging frame/psf pairs; "
-    "derived arrays: 1D all mixed masks of length <= 7, 2D all mixed masks of all shapes with <= 6 cells + fixed masks on the 4 larger frames",
+    "derived arrays: 1D all mixed masks of length <= 7, 2D all mixed masks of all shapes with <= 6 cells + fixed masks on the 4 larger frames; "
+    "re-used units: open modes {default, memmap=False, memmap=True, update x memmap F/T}, ImageHDU from all 8 dtypes; all read "
+    "sequences of length 2 on 2x1, 2x2, 5x1 / lengths 2, 4, of length 3 on 3x2, 3x3, 4x3 / length 5, of length 4 on 2x3 / length 3 "
+    "(34668 cases)",
 }
 
 SCALES2 = [0.7, (0.5, 2.0), (2.0, 0.5)]
@@ -164,6 +190,25 @@ FAMILY = {
     "util1d": "numpy_array_1d_to_fits",
 }
 BIG_FRAMES = [(3, 3), (4, 3), (3, 4), (2, 5)]
+# (i) header-data units that are read more than once / by several classes / inspected by the caller afterwards
+HR_READERS = {2: ["Array2D", "Kernel2D", "Mask2D"], 1: ["Array1D", "Mask1D"]}
+HR_VALUE_READERS = ("Array2D", "Kernel2D", "Array1D")
+HR_WRITERS = {
+    (2, "real"): ["Array2D", "Array2D.masked", "Kernel2D"],
+    (2, "mask"): ["Mask2D"],
+    (1, "real"): ["Array1D", "Array1D.masked"],
+    (1, "mask"): ["Mask1D"],
+}
+# how the caller opens the file: keyword arguments of astropy.io.fits.open
+HR_OPEN = {
+    "default": {},
+    "memmap0": {"memmap": False},
+    "memmap1": {"memmap": True},
+    "update-memmap0": {"mode": "update", "memmap": False},
+    "update-memmap1": {"mode": "update", "memmap": True},
+}
+# dtypes (explicit byte order) of the arrays in-memory header-data units are built from
+HR_DTYPES = [">f8", "<f8", ">f4", "<f4", ">i4", "<i4", ">i2", "<i8"]
 IMG_FRAMES = [(1, 3), (3, 1), (2, 3), (3, 3), (4, 3)]
 IMG_PSFS = [None, (1, 3), (3, 1), (3, 3)]
 
@@ -220,6 +265,9 @@ def cases(tier, seed):
         for si in range(len(SCALES2)):
             for f in flips:
                 yield ["kern2d", seed, f, h, w, si]
+    # (i) one header-data unit read several times / by several classes, shortest histories and smallest frames first
+    for c in _hdureuse_cases(quick, seed):
+        yield c
     # (e) targets
     for wr in TG_WRITERS:
         for tk in TARGETS:
@@ -302,6 +350,47 @@ def cases(tier, seed):
                 continue
             for f in flips:
                 yield ["deriv2d", seed, f, h, w, bits]
+
+
+def hr_sources(dim, content, quick):
+    """Every way the header-data unit of a case comes about: 'file:<writer>:<open>' = the library writer's file opened
+    by the caller with astropy (primary HDU), 'ext:<writer>:<open>' = the writer's HDU stored as image extension 1 of a
+    two-HDU file, 'out:<writer>' = hdu_for_output (in memory), 'mem:<dtype>' / 'memext:<dtype>' = a PrimaryHDU / ImageHDU
+    the caller builds from an array of that dtype and byte order."""
+    opens = ["default", "memmap0"] if quick else list(HR_OPEN)
+    out = []
+    for wr in HR_WRITERS[(dim, content)]:
+        for o in opens:
+            out.append("file:%s:%s" % (wr, o))
+    for wr in HR_WRITERS[(dim, content)]:
+        for o in opens:
+            out.append("ext:%s:%s" % (wr, o))
+    for wr in HR_WRITERS[(dim, content)]:
+        out.append("out:%s" % wr)
+    for dt in HR_DTYPES:
+        out.append("mem:%s" % dt)
+    for dt in (HR_DTYPES[:1] if quick else HR_DTYPES):
+        out.append("memext:%s" % dt)
+    return out
+
+
+def _hdureuse_cases(quick, seed):
+    # (history length, frames): every sequence of that length over the readers of the dimension
+    if quick:
+        plan = {2: [(2, [(2, 1), (2, 3), (3, 2)]), (3, [(2, 3)])], 1: [(2, [(2,), (3,)]), (3, [(3,)])]}
+    else:
+        plan = {2: [(2, [(2, 1), (2, 2), (5, 1)]), (3, [(3, 2), (3, 3), (4, 3)]), (4, [(2, 3)])],
+                1: [(2, [(2,), (4,)]), (3, [(5,)]), (4, [(3,)])]}
+    for dim in (1, 2):
+        for depth, shapes in plan[dim]:
+            for shape in shapes:
+                for content in ("real", "mask"):
+                    readers = HR_READERS[dim] if content == "mask" else [r for r in HR_READERS[dim] if r in HR_VALUE_READERS]
+                    for src in hr_sources(dim, content, quick):
+                        for seq in itertools.product(readers, repeat=depth):
+                            for pre in (0, 1):
+                                for f in (0, 1):
+                                    yield ["hdureuse", seed, f, dim, list(shape), content, src, pre, list(seq)]
 
 
 # ----------------------------------------------------------------------------- value menus / reference helpers
@@ -1306,6 +1395,189 @@ def run_cfghist(v, td, seed, flip, cl, mech, hist, shape):
         sw.restore()
 
 
+
+# ----------------------------------------------------------------------------- (i) re-used header-data units
+
+
+def _asym_mask1(n, k):
+    """A 1D mask with >= 1 masked and >= 1 unmasked pixel that differs from its reversal (n >= 2)."""
+    b = (k * 7 + 1) % (2 ** n)
+    for _ in range(2 ** n):
+        m = dom.mask_from_bits(1, n, b)[0]
+        if m.any() and not m.all() and not np.array_equal(m, m[::-1]):
+            return m
+        b = (b + 1) % (2 ** n)
+    raise RuntimeError("harness: no asymmetric mask of length %d" % n)
+
+
+def _exact_vals(seed, n, integer, *salt):
+    """Injective, signed, non-symmetric labelling that float32 / int16 hold exactly: +-(k+1) (+-0.5 for floats)."""
+    r = dom.rng(seed, "c16", "hr-exact", n, *salt)
+    mag = r.permutation(n) + 1.0
+    if not integer:
+        mag = mag + 0.5
+    sign = np.where(r.randint(0, 2, n) == 1, -1.0, 1.0)
+    if n >= 2:
+        sign[0], sign[1] = 1.0, -1.0
+    return sign * mag
+
+
+def _hr_object(aa, writer, E, mk, ps):
+    """Library object of class `writer` whose native values are E (masked variants: E is already 0 where mk)."""
+    if writer == "Array2D":
+        return aa.Array2D.no_mask(values=E.copy(), pixel_scales=ps)
+    if writer == "Array2D.masked":
+        return aa.Array2D(values=E.copy(), mask=aa.Mask2D(mask=mk.copy(), pixel_scales=ps))
+    if writer == "Kernel2D":
+        return aa.Kernel2D.no_mask(values=E.copy(), pixel_scales=ps)
+    if writer == "Mask2D":
+        return aa.Mask2D(mask=(E != 0.0), pixel_scales=ps)
+    if writer == "Array1D":
+        return aa.Array1D.no_mask(values=E.copy(), pixel_scales=ps)
+    if writer == "Array1D.masked":
+        return aa.Array1D(values=E.copy(), mask=aa.Mask1D(mask=mk.copy(), pixel_scales=(ps,)))
+    if writer == "Mask1D":
+        return aa.Mask1D(mask=(E != 0.0), pixel_scales=(ps,))
+    raise ValueError(writer)
+
+
+def _hr_header_view(hdr):
+    return dict((k, hdr[k]) for k in hdr.keys() if k.startswith(("PIXSCALE", "NAXIS", "BITPIX")))
+
+
+def run_hdureuse(v, td, seed, flip, dim, shape, content, source, pre, seq):
+    """ONE header-data unit - obtained by opening a written file with astropy (big-endian data), from hdu_for_output,
+    or built in memory by the caller from an array of some dtype / byte order - is read by the sequence `seq` of
+    from_primary_hdu readers. Reference model: readers are pure functions of the unit, so every read returns the content
+    that was written (value readers: the native values as float64; mask readers: the booleans), with the written pixel
+    scale, whatever was read before; the caller's unit (data values, dtype, byte order, shape, header cards), the array
+    the caller built it from and the file on disk are the same after every read; objects returned by earlier reads keep
+    their values."""
+    import autoarray as aa
+    from astropy.io import fits
+
+    ps = 0.7
+    parts = source.split(":")
+    fam = parts[0]
+    shape = tuple(int(x) for x in shape)
+    n = int(np.prod(shape))
+    integer = fam in ("mem", "memext") and np.dtype(parts[1]).kind == "i"
+    mk = (_asym_mask(shape[0], shape[1], seed + 1) if dim == 2 else _asym_mask1(n, seed + 1))
+    if content == "mask":
+        E = (_asym_mask(shape[0], shape[1], seed) if dim == 2 else _asym_mask1(n, seed)).astype(float)
+    elif fam in ("mem", "memext"):
+        E = _exact_vals(seed, n, integer, shape).reshape(shape)
+    else:
+        E = vals_for(seed, n, "hr", shape).reshape(shape)
+        if parts[1].endswith(".masked"):
+            E = np.where(mk, 0.0, E)
+    R = np.flipud(E) if (flip and dim == 2) else E  # what the unit must hold
+    pre_c = "hdu-reuse[%s]" % fam
+    hl = None
+    path = None
+    own = own0 = None
+    try:
+        # ---- the caller obtains the unit
+        if fam in ("file", "ext"):
+            obj = _hr_object(aa, parts[1], E, mk, ps)
+            path = os.path.join(td, "reuse.fits")
+            if fam == "file":
+                obj.output_to_fits(file_path=path)
+            else:
+                oshape = (shape[1] + 1, shape[0]) if dim == 2 else (n + 1,)
+                other = vals_for(seed, int(np.prod(oshape)), "hrB", oshape).reshape(oshape)
+                hd = obj.hdu_for_output
+                hdr0 = fits.Header()
+                hdr0["PIXSCALE"] = 1.3
+                fits.HDUList([fits.PrimaryHDU(other, header=hdr0),
+                              fits.ImageHDU(np.array(hd.data), header=pix_cards(hd.header))]).writeto(path)
+            digest0 = hashlib.sha1(open(path, "rb").read()).hexdigest()
+            hl = fits.open(path, **HR_OPEN[parts[2]])
+            hdu = hl[0 if fam == "file" else 1]
+        elif fam == "out":
+            hdu = _hr_object(aa, parts[1], E, mk, ps).hdu_for_output
+        else:
+            own = np.ascontiguousarray(R).astype(np.dtype(parts[1]))
+            own0 = own.copy()
+            hdr0 = fits.Header()
+            hdr0["PIXSCALE"] = ps
+            hdu = fits.PrimaryHDU(own, header=hdr0) if fam == "mem" else fits.ImageHDU(own, header=hdr0)
+        header0 = _hr_header_view(hdu.header)
+        dtypes = []
+        changed = []
+
+        def inspect(after):
+            """The caller looks at the unit: data, dtype / byte order, header cards. A change is attributed to the read
+            after which it is first seen (later looks at an already changed unit are not judged again)."""
+            if changed:
+                return
+            d = hdu.data
+            dtypes.append(np.asarray(d).dtype.str)
+            g = np.asarray(d)
+            same = g.shape == R.shape and bool(np.array_equal(g.astype(np.float64), R))
+            if not same:
+                changed.append(after)
+            v.ok(same, "%s:%s:caller-hdu-data-changed" % (pre_c, after),
+                 lambda: "%s, flip=%s, after reads [%s]: the caller's hdu.data is %s (dtype %s), the unit held %s"
+                 % (source, flip, after, g.tolist(), g.dtype.str, R.tolist()))
+            v.ok(dtypes[-1] == dtypes[0] and (own is None or dtypes[-1] == own0.dtype.str), "%s:%s:caller-hdu-dtype-changed" % (pre_c, after),
+                 lambda: "%s: hdu.data dtype %s, was %s" % (source, dtypes[-1], dtypes[0]))
+            hv = _hr_header_view(hdu.header)
+            v.ok(hv == header0, "%s:%s:caller-hdu-header-changed" % (pre_c, after), lambda: "%s: header cards %s, were %s" % (source, hv, header0))
+            if own is not None:
+                v.ok(own.dtype == own0.dtype and bool(np.array_equal(own, own0)), "%s:%s:caller-array-changed" % (pre_c, after),
+                     lambda: "%s: the array the unit was built from is now %s, was %s" % (source, own.tolist(), own0.tolist()))
+
+        if pre:
+            inspect("none")
+        results = []
+        for k, rd in enumerate(seq):
+            hist = ",".join(seq[: k + 1])
+            cls = getattr(aa, rd)
+            try:
+                o = cls.from_primary_hdu(primary_hdu=hdu)
+            except Exception as e:  # noqa: BLE001
+                _, _, where = _exc_site(e)
+                v.fail("%s:%s:exception:%s" % (pre_c, rd, type(e).__name__),
+                       "%s, flip=%s, reads [%s]: %s.from_primary_hdu raised %s: %s | %s" % (source, flip, hist, rd, type(e).__name__, str(e)[:200], where))
+                break
+            if rd in HR_VALUE_READERS:
+                get, exp, dt = (lambda o=o: np.array(o.native)), E, "float64"
+            else:
+                get, exp, dt = (lambda o=o: np.array(o)), (E != 0.0), "bool"
+            v.ok(isinstance(o, cls), "%s:%s:type" % (pre_c, rd), lambda: "type %s" % type(o).__name__)
+            got = get()
+            kind = mismatch(got, exp)
+            first = k == 0
+            ok = v.ok(kind is None, "%s:%s:%s:%s" % (pre_c, rd, "first-read" if first else "re-read", kind or "values"),
+                      lambda: "%s, flip=%s, reads [%s]: %s.from_primary_hdu (read %d of the same unit) returned %s, the unit holds %s"
+                      % (source, flip, hist, rd, k + 1, got.tolist(), exp.tolist()))
+            if ok:
+                v.ok(got.dtype == np.dtype(dt), "%s:%s:dtype" % (pre_c, rd), lambda: "dtype %s" % got.dtype)
+            chk_scale(v, "%s:%s" % (pre_c, rd), o.pixel_scales, (ps,) * dim)
+            if ok:
+                results.append((hist, rd, get, exp))
+            inspect(rd)
+        # ---- the caller is done with the unit
+        if hl is not None:
+            hl.close()
+            hl = None
+            digest1 = hashlib.sha1(open(path, "rb").read()).hexdigest()
+            v.ok(digest1 == digest0, "%s:file-bytes-changed" % pre_c,
+                 lambda: "%s, flip=%s, reads [%s]: the file on disk changed although the caller only read from its unit" % (source, flip, ",".join(seq)))
+        for hist, rd, get, exp in results:
+            got = get()
+            v.ok(mismatch(got, exp) is None, "%s:%s:earlier-result-changed" % (pre_c, rd),
+                 lambda: "%s, flip=%s: the object returned by read [%s] holds %s after the later reads [%s], expected %s"
+                 % (source, flip, hist, got.tolist(), ",".join(seq), exp.tolist()))
+        native = np.dtype(dtypes[0]).isnative if dtypes else None
+    finally:
+        if hl is not None:
+            hl.close()
+    v.nontrivial = len(seq) >= 2 and not np.array_equal(E, np.flipud(E) if dim == 2 else E[::-1])
+    v.outcome = "hdureuse:%s:%s:%s:flip%d" % (fam, content, "native-byte-order" if native else "non-native-byte-order", flip)
+
+
 # ----------------------------------------------------------------------------- writers for target / overwrite cases
 
 
@@ -1781,4 +2053,5 @@ RUNNERS = {
     "deriv2d": run_deriv2d,
     "deriv1d": run_deriv1d,
     "cfghist": run_cfghist,
+    "hdureuse": run_hdureuse,
 }
